@@ -48,9 +48,10 @@ class Obj:
 class Val:
     objs: FrozenSet[Obj] = frozenset()
     reads: FrozenSet[str] = frozenset()
+    strs: FrozenSet[str] = frozenset()  # string constants the value may be (for getattr(self, name) through a parameter)
 
     def __or__(self, other: "Val") -> "Val":
-        return Val(self.objs | other.objs, self.reads | other.reads)
+        return Val(self.objs | other.objs, self.reads | other.reads, self.strs | other.strs)
 
     def data(self) -> "Val":
         return Val(frozenset(), self.reads)
@@ -199,6 +200,8 @@ class Flow:
         if e is None:
             return BOT
         if isinstance(e, ast.Constant):
+            if isinstance(e.value, str) and e.value.isidentifier():
+                return Val(frozenset(), frozenset(), frozenset([e.value]))
             return BOT
         if isinstance(e, ast.Name):
             if e.id in env:
@@ -401,6 +404,7 @@ class Flow:
                         names.add(v.value)
             elif isinstance(n, ast.Constant) and isinstance(n.value, str):
                 names.add(n.value)
+        names |= set(pos[1].strs)
         out = Val(frozenset(), recv.reads | pos[1].reads)
         for o in recv.objs:
             for nm in names:
